@@ -24,6 +24,7 @@ type Obligation struct {
 	Assumes []string
 	Goal    string
 	Path    string
+	Only    bool // clause-level property attribution: belongs only to Props
 	WantSat bool // vacuity query: must be satisfiable
 	Src     string
 }
@@ -85,7 +86,9 @@ type FnCtx struct {
 	aborted  string
 	divw     map[string]string
 	entryNow string
+	usedContracts map[string]bool // Helios callee contracts applied -> whether that callee is itself verified for some property
 	extraEnv map[string]Val
+	ghostRet *Val
 	curLoopFrame  []*frame
 	curLoopBlocks map[*ssa.BasicBlock]bool
 }
@@ -300,6 +303,9 @@ func (c *FnCtx) oblige(p *Path, kind, label, goal, src string, props []string) {
 		return
 	}
 	name := c.label + "/" + kind + "/" + label
+	if len(c.obs) > 0 && false {
+		return
+	}
 	c.obs = append(c.obs, &Obligation{Name: name, Kind: kind, Func: c.label, Props: props, NDecl: -1, Ctx: c,
 		Assumes: append([]string(nil), p.assumes...), Goal: goal, Path: strings.Join(p.trace, ">"), Src: src})
 }
@@ -480,6 +486,17 @@ func (p *Path) noteBase(b string) {
 	p.bases = append(p.bases, b)
 }
 
+// nameArr: give a long heap array term a name (keeps later terms and quantifier patterns small).
+func (c *FnCtx) nameArr(p *Path, h *HeapView, key string) {
+	t := h.m[key]
+	if len(t) < 160 || h != &p.heap {
+		return
+	}
+	n := c.fresh("A "+key, arraySort(key, c.heapSort[key]))
+	p.assume("(= " + n + " " + t + ")")
+	h.m[key] = n
+}
+
 // rowHint: after a store into backing store `at` of key, spell out read-over-write for the other backing
 // stores this path has looked at (valid array-theory facts; they let quantifier instantiation see through stores).
 func (c *FnCtx) rowHint(p *Path, key, oldArr, at string) {
@@ -554,10 +571,12 @@ func (c *FnCtx) store(p *Path, h *HeapView, ptr Val, v Val, t types.Type) {
 		if ptr.Idx != "" {
 			h.m[key] = fmt.Sprintf("(store %s %s (store (select %s %s) %s %s))", arr, ptr.T, arr, ptr.T, ptr.Idx, lt[i][1])
 			if h == &p.heap && strings.HasPrefix(key, "[]") {
+				c.nameArr(p, h, key)
 				c.rowHint(p, key, arr, ptr.T)
 			}
 		} else {
 			h.m[key] = fmt.Sprintf("(store %s %s %s)", arr, ptr.T, lt[i][1])
+			c.nameArr(p, h, key)
 		}
 	}
 }
@@ -1010,6 +1029,30 @@ func (c *FnCtx) execSimple(p *Path, ins ssa.Instruction) {
 func (c *FnCtx) zeroGhost(p *Path, ptr Val, t types.Type) {
 	// ghost fields of a freshly allocated struct start at their zero
 	tk := typeKey(t)
+	if st := structOf(t); st != nil && !isOpaqueExternal(t) {
+		// library objects embedded by value: their ghost fields hang off the field's address
+		for i := 0; i < st.NumFields(); i++ {
+			ft := st.Field(i).Type()
+			if !isOpaqueExternal(ft) {
+				continue
+			}
+			ftk := typeKey(ft)
+			for _, g := range c.eng.cs.GFields {
+				if c.eng.qualType(g.Pkg, g.Type) != ftk || strings.HasPrefix(g.Sort, "(Array") {
+					continue
+				}
+				key := tk + "." + st.Field(i).Name() + ".$" + g.Name
+				z := "0"
+				if g.Sort == "Bool" {
+					z = "false"
+				} else if g.Sort == "String" {
+					z = "\"\""
+				}
+				arr := c.heapGet(&p.heap, key, g.Sort)
+				p.heap.m[key] = fmt.Sprintf("(store %s %s %s)", arr, ptr.T, z)
+			}
+		}
+	}
 	for _, g := range c.eng.cs.GFields {
 		if c.eng.qualType(g.Pkg, g.Type) != tk {
 			continue
@@ -1501,20 +1544,22 @@ func (c *FnCtx) appendVals(p *Path, s Val, elems []Val, et types.Type, hint stri
 	for _, e := range elems {
 		nb := c.alloc(p, "grow_"+hint)
 		room := fmt.Sprintf("(< %s %s)", cur.Len, cur.Cap)
-		base := fmt.Sprintf("(ite %s %s %s)", room, cur.T, nb)
+		// name the resulting base so that terms (and quantifier patterns) built from it contain no ite
+		base := c.fresh("base_"+hint, "Int")
+		p.assume(fmt.Sprintf("(= %s (ite %s %s %s))", base, room, cur.T, nb))
 		var lt [][2]string
 		leafTerms(e, et, "", &lt)
 		for i, l := range leavesOf(et) {
 			key := elemKey(et) + l.Path
 			arr := c.heapGet(&p.heap, key, l.Sort)
 			p.heap.m[key] = fmt.Sprintf("(store %s %s (store (select %s %s) %s %s))", arr, base, arr, cur.T, cur.Len, lt[i][1])
-			bn := c.fresh("base_"+hint, "Int")
-			p.assume("(= " + bn + " " + base + ")")
-			c.rowHint(p, key, arr, bn)
+			c.nameArr(p, &p.heap, key)
+			c.rowHint(p, key, arr, base)
 		}
 		ncap := c.fresh("cap_"+hint, "Int")
 		newLen := "(+ " + cur.Len + " 1)"
 		p.assume(fmt.Sprintf("(ite %s (= %s %s) (>= %s %s))", room, ncap, cur.Cap, ncap, newLen))
+		p.noteBase(base)
 		cur = Val{K: KSlice, T: base, Len: newLen, Cap: ncap, Typ: s.Typ}
 	}
 	return cur
